@@ -15,6 +15,18 @@
 //!              with every name occurrence replaced (as the specification resolves it) by the
 //!              literal of its bound value, evaluated in an empty scope.
 //! * `namenew`  impl = model: `Name::new` against `Dmn.Lexer.nameNew`.
+//! * `evaluate-words`     impl ⊨ spec: every `evaluate` text is parsed on the same thread (i) first in a scope that binds
+//!              nothing, (ii) then in its own scope (`evaluate`), (iii) then in a scope that binds the *words* of its
+//!              names of several parts but none of those names; (iii) must give the value of the text with every word
+//!              replaced by its own literal (the specification resolves every word to itself there).
+//! * `evaluate-bracketed` impl ⊨ spec: every `evaluate` expression again before / inside / after a construct that brackets
+//!              a parsing context (`function ()`, `function (p)`, `for`, `some`, `every`, `{…}`, filter; nested twice);
+//!              the expectation is a function of the value the specification gave for the expression alone.
+//! * `bif-named` impl ⊨ spec: a bound function / number / context entry / formal parameter / iteration variable named like
+//!              every built-in function (`Dmn.Gen.bifNames`, regenerated from feel/src/bif.rs) used as callee
+//!              (positional, named) and as operand denotes the bound value; expectations known outright.
+//! * `history`  impl ⊨ spec: at the end of the run texts are evaluated again in their own scope (the specification's value
+//!              must come out again) and in the scope of another case, on this thread and on a fresh thread (equal).
 
 use crate::model::Model;
 use crate::report::{Kind, Report};
@@ -264,6 +276,206 @@ pub struct Bound {
   pub exotic: bool,
 }
 
+/// What is needed to build the same scope on another thread: (parts, literal of the value, parts of the extra key
+/// of `zlist`'s later item).
+type Plain = (Vec<String>, String, Vec<String>);
+
+fn plain_of(bound: &[Bound], local0: &[String]) -> Vec<Plain> {
+  bound.iter().map(|b| (b.parts.clone(), b.literal.clone(), if b.literal == "zlist" { local0.to_vec() } else { vec![] })).collect()
+}
+
+fn name_of(parts: &[String]) -> Name {
+  Name::new(&parts.iter().map(|s| s.as_str()).collect::<Vec<&str>>())
+}
+
+fn zlist_value(local0: &Name) -> Value {
+  let mut first = FeelContext::default();
+  first.set_entry(&Name::from("fld"), Value::Number(FeelNumber::from_i128(1)));
+  let mut second = FeelContext::default();
+  second.set_entry(&Name::from("fld"), Value::Number(FeelNumber::from_i128(2)));
+  second.set_entry(local0, Value::Number(FeelNumber::from_i128(3)));
+  Value::List(dmntk_feel::values::Values::new(vec![Value::Context(first), Value::Context(second)]))
+}
+
+/// The value a literal text denotes: numbers directly, everything else (context and function literals) by
+/// evaluating the literal in a scope that binds nothing.
+fn value_of_literal(literal: &str, aux: &[String]) -> Value {
+  if literal == "zlist" {
+    return zlist_value(&name_of(aux));
+  }
+  if let Ok(n) = literal.parse::<i128>() {
+    return Value::Number(FeelNumber::from_i128(n));
+  }
+  let s = Scope::default();
+  match guarded(|| dmntk_feel_parser::parse_expression(&s, literal, false).and_then(|n| dmntk_feel_evaluator::evaluate(&s, &n))) {
+    Ok(Ok(v)) => v,
+    _ => Value::Null(None),
+  }
+}
+
+fn scope_of_plain(plain: &[Plain]) -> Scope {
+  let scope = Scope::default();
+  for (parts, literal, aux) in plain {
+    scope.set_entry(&name_of(parts), value_of_literal(literal, aux));
+  }
+  scope
+}
+
+/// `evaluate(parse_expression(scope, text))` on a thread that has parsed nothing before.
+fn fresh_thread_eval(plain: &[Plain], text: &str) -> String {
+  let plain = plain.to_vec();
+  let text = text.to_string();
+  crate::util::beat();
+  match std::thread::spawn(move || eval_text(&scope_of_plain(&plain), &text)).join() {
+    Ok(s) => s,
+    Err(_) => "panic: thread".to_string(),
+  }
+}
+
+/// `ok` / `parse-error` / `panic` of `parse_expression` alone.
+fn parse_status(scope: &Scope, text: &str) -> &'static str {
+  crate::util::note_case(text);
+  match guarded(|| dmntk_feel_parser::parse_expression(scope, text, false).is_ok()) {
+    Ok(true) => "ok",
+    Ok(false) => "parse-error",
+    Err(_) => "panic",
+  }
+}
+
+/// The specification's answer `(some name len)` read back.
+fn spec_some(a: &str) -> Option<(String, usize)> {
+  let spec = Sexp::parse(a)?;
+  let l = spec.as_list()?;
+  if l.first()?.as_atom()? == "some" {
+    Some((cps_to_string(l.get(1)?)?, l.get(2)?.as_atom()?.parse::<usize>().ok()?))
+  } else {
+    None
+  }
+}
+
+fn resolve_request(names: &[String], rest: &str) -> String {
+  Sexp::list(vec![Sexp::atom("c10"), Sexp::atom("resolve"), Sexp::list(names.iter().map(|k| Sexp::str(k)).collect()), Sexp::str(rest)]).to_string()
+}
+
+/// Values of the words of a name when they are bound one by one (scope (iii) of a case).
+const WORD_VALUES: [i128; 14] = [23, 29, 31, 37, 41, 43, 47, 53, 59, 61, 67, 71, 73, 79];
+
+/// The same text in a scope that binds the *words* of the chosen names, each to a number of its own, and none of
+/// the names of several parts.
+struct PartsCase {
+  words: Vec<(String, i128)>,
+  /// char offset and text of every word occurrence
+  word_starts: Vec<(usize, String)>,
+  /// the text with every word replaced by the literal of its value
+  expected_text: String,
+  impl_value: String,
+}
+
+fn parts_case(text: &str, n_parts: &[(usize, String)]) -> Option<PartsCase> {
+  // `a.b` with `a` bound to a number is a path into a number; outside of what the literal substitution can say
+  if n_parts.iter().any(|(_, p)| p == ".") {
+    return None;
+  }
+  let mut words: Vec<(String, i128)> = vec![];
+  for (_, p) in n_parts {
+    if !is_symbol(p) && !LATER_WORDS.contains(&p.as_str()) && !words.iter().any(|(w, _)| w == p) {
+      if words.len() == WORD_VALUES.len() {
+        return None;
+      }
+      words.push((p.clone(), WORD_VALUES[words.len()]));
+    }
+  }
+  let chars: Vec<char> = text.chars().collect();
+  let mut expected_text = String::new();
+  let mut word_starts = vec![];
+  let mut cursor = 0usize;
+  for (off, p) in n_parts {
+    if let Some((_, v)) = words.iter().find(|(w, _)| w == p) {
+      expected_text.extend(chars[cursor..*off].iter());
+      expected_text.push_str(&v.to_string());
+      cursor = off + p.chars().count();
+      word_starts.push((*off, p.clone()));
+    }
+  }
+  expected_text.extend(chars[cursor..].iter());
+  let scope = Scope::default();
+  for (w, v) in &words {
+    scope.set_entry(&Name::from(w.as_str()), Value::Number(FeelNumber::from_i128(*v)));
+  }
+  let impl_value = eval_text(&scope, text);
+  Some(PartsCase { words, word_starts, expected_text, impl_value })
+}
+
+/// How the value of a wrapped expression follows from the value `v` of the expression.
+#[derive(Clone, Copy)]
+enum Expect {
+  /// `v`
+  Same,
+  /// the format with `{}` replaced by `v`
+  Fmt(&'static str),
+  /// the wrapper compares the expression with the literal of `v` (`{}` in prefix / suffix): the fixed value
+  Eq(&'static str),
+}
+
+/// A construct that makes the parser push and pop a parsing context (`function`, `for`, `some`, `every`, `{…}`) or
+/// the evaluator a local one (filter), placed before, around and after an expression that uses bound names.
+struct Wrapper {
+  name: &'static str,
+  prefix: &'static str,
+  suffix: &'static str,
+  expect: Expect,
+}
+
+fn wrappers() -> Vec<Wrapper> {
+  use Expect::*;
+  let w = |name, prefix, suffix, expect| Wrapper { name, prefix, suffix, expect };
+  vec![
+    // the bound names are used AFTER the construct has been closed
+    w("after function()", "[function () 12, ", "][2]", Same),
+    w("after function() invoked", "[(function () 12)(), ", "]", Fmt("[12, {}]")),
+    w("after function(p)", "[(function (w9) w9 + 1)(11), ", "]", Fmt("[12, {}]")),
+    w("after function(p: T, q: T)", "[(function (w9: number, w8: number) w9 + w8)(5, 7), ", "]", Fmt("[12, {}]")),
+    w("after for", "[for w9 in [12] return w9, ", "]", Fmt("[[12], {}]")),
+    w("after some", "[some w9 in [12] satisfies w9 = 12, ", "]", Fmt("[true, {}]")),
+    w("after every", "[every w9 in [12] satisfies w9 = 1, ", "]", Fmt("[false, {}]")),
+    w("after context", "[{w9: 12}.w9, ", "]", Fmt("[12, {}]")),
+    w("after context of two entries", "[{w9: 1, w8: w9 + 11}.w8, ", "]", Fmt("[12, {}]")),
+    w("after filter", "[[12, 13, 1][item > 1], ", "]", Fmt("[[12, 13], {}]")),
+    w("after function() in condition", "if (function () true)() then (", ") else 0", Same),
+    // … INSIDE the construct
+    w("inside function()", "(function () ", ")()", Same),
+    w("inside function(p)", "(function (w9) ", ")(1)", Same),
+    w("inside for", "for w9 in [1] return ", "", Fmt("[{}]")),
+    w("inside some", "some w9 in [1] satisfies (", ") = {}", Eq("true")),
+    w("inside every", "every w9 in [1, 2] satisfies (", ") = {}", Eq("true")),
+    w("inside context", "{w9: ", "}.w9", Same),
+    w("inside context, second entry", "{w8: 1, w9: ", "}.w9", Same),
+    w("inside filter", "[0, 0][(", ") = {}]", Eq("[0, 0]")),
+    // … BEFORE the construct
+    w("before function()", "[", ", (function () 12)()]", Fmt("[{}, 12]")),
+    w("before for", "[", ", for w9 in [12] return w9]", Fmt("[{}, [12]]")),
+    w("before context", "[", ", {w9: 12}.w9]", Fmt("[{}, 12]")),
+    w("between function() and function()", "[(function () 1)(), ", ", (function () 2)()]", Fmt("[1, {}, 2]")),
+    // nested twice
+    w("after function() in function()", "[(function () (function () 12)())(), ", "]", Fmt("[12, {}]")),
+    w("inside function() in function()", "(function () (function () ", ")())()", Same),
+    w("after function() in context", "[{w9: function () 12, w8: w9()}.w8, ", "]", Fmt("[12, {}]")),
+    w("after function() in for", "[for w9 in [12] return (function () w9)(), ", "]", Fmt("[[12], {}]")),
+    w("inside for in function()", "(function () for w9 in [1] return ", ")()", Fmt("[{}]")),
+    w("inside context in context", "{w9: {w8: ", "}.w8}.w9", Same),
+    w("inside for in for", "for w9 in [1] return for w8 in [2] return ", "", Fmt("[[{}]]")),
+    w("after some in every", "[every w9 in [1] satisfies some w8 in [1] satisfies w8 = w9, ", "]", Fmt("[true, {}]")),
+    w("after function(), context and for", "[(function () 1)(), {w9: 2}.w9, for w8 in [3] return w8, ", "]", Fmt("[1, 2, [3], {}]")),
+    w("inside filter in filter", "[0, 0][[true, true][(", ") = {}][1]]", Eq("[0, 0]")),
+    w("after function() in function(p)", "[(function (w9) (function () w9)())(12), ", "]", Fmt("[12, {}]")),
+  ]
+}
+
+/// A value text that can be written back as a literal: numbers, booleans, null and lists of them.
+fn writable(v: &str) -> bool {
+  !v.is_empty() && v != "null" && !v.contains("null") && v.chars().all(|c| c.is_ascii_digit() || "-.[], ".contains(c)) || v == "true" || v == "false"
+}
+
 fn is_symbol(p: &str) -> bool {
   SYMBOLS.contains(&p)
 }
@@ -371,6 +583,11 @@ pub fn gen_bound(rng: &mut Rng, exotic: bool) -> Vec<Bound> {
     .collect()
 }
 
+/// A literal number in the place of a bound name.
+fn lit_bound(n: i128) -> Bound {
+  Bound { parts: vec![], name: Name::from("w0"), value: Value::Number(FeelNumber::from_i128(n)), literal: n.to_string(), exotic: false }
+}
+
 pub fn scope_of(bound: &[Bound]) -> Scope {
   let scope = Scope::default();
   for b in bound {
@@ -387,7 +604,13 @@ pub fn sorted_keys(scope: &Scope) -> Vec<String> {
 
 /// One way of writing the name: blanks between words, optional blanks around symbols.
 pub fn render(rng: &mut Rng, parts: &[String]) -> String {
+  render_off(rng, parts).0
+}
+
+/// `render` together with the character offset (inside the rendered text) at which every part starts.
+pub fn render_off(rng: &mut Rng, parts: &[String]) -> (String, Vec<usize>) {
   let mut s = String::new();
+  let mut offsets = vec![];
   for (i, p) in parts.iter().enumerate() {
     if i > 0 {
       let around_symbol = is_symbol(p) || is_symbol(&parts[i - 1]);
@@ -403,9 +626,10 @@ pub fn render(rng: &mut Rng, parts: &[String]) -> String {
         s.push_str(*rng.pick(&BLANKS));
       }
     }
+    offsets.push(s.chars().count());
     s.push_str(p);
   }
-  s
+  (s, offsets)
 }
 
 fn canon(v: &Value) -> String {
@@ -616,7 +840,13 @@ pub fn run(cfg: &Cfg) -> Report {
     impl_value: String,
     nontrivial: bool,
     exotic: bool,
+    /// the same text in the scope of the words (parsed after the parse in the case's own scope)
+    parts: Option<PartsCase>,
+    /// index of the wrapper this case is repeated with
+    wrapper: usize,
+    local0: Vec<String>,
   }
+  let wrappers = wrappers();
   let mut resolve_cases: Vec<ResolveCase> = vec![];
   let mut eval_cases: Vec<EvalCase> = vec![];
   let followers = ["", " ", " in [1]", " between 1 and 2", "[1]", "(1)", ".x", " . x", " + 1", "+1", "-1", " - 1", "*2", "/2", "'", ")", " then 1", " else 1", ", 1", ": 1", " 1", " q", "..3", " instance of number", "}", "]", " = 1", "<1", " and true", "\n"];
@@ -630,7 +860,7 @@ pub fn run(cfg: &Cfg) -> Report {
     let occ = parts.concat();
     let text = format!("{} + 1", occ);
     let impl_value = eval_text(&scope_of(&[b.clone()]), &text);
-    eval_cases.push(EvalCase { text, all_bound: vec![b], occurrences: vec![(0, occ.chars().count())], locals: vec![], forced: vec![None], family: "operand", impl_value, nontrivial: true, exotic: true });
+    eval_cases.push(EvalCase { text, all_bound: vec![b], occurrences: vec![(0, occ.chars().count())], locals: vec![], forced: vec![None], family: "operand", impl_value, nontrivial: true, exotic: true, parts: None, wrapper: 0, local0: vec![] });
   }
 
   for si in 0..n_scopes {
@@ -703,13 +933,20 @@ pub fn run(cfg: &Cfg) -> Report {
       let mut occurrences = vec![];
       let mut forced: Vec<Option<(String, String)>> = vec![];
       let mut multi = false;
+      // (char offset, part) of every part of every occurrence of a chosen bound name
+      let mut n_parts: Vec<(usize, String)> = vec![];
+      let tn_only = tpl.iter().all(|p| matches!(p, T(_) | N(_)));
       for piece in &tpl {
         match piece {
           T(t) => text.push_str(t),
           N(i) => {
             let start = text.chars().count();
             multi |= chosen[*i].parts.len() > 1;
-            text.push_str(&render(&mut rng, &chosen[*i].parts));
+            let (r, offs) = render_off(&mut rng, &chosen[*i].parts);
+            for (o, p) in offs.iter().zip(chosen[*i].parts.iter()) {
+              n_parts.push((start + o, p.clone()));
+            }
+            text.push_str(&r);
             occurrences.push((start, text.chars().count()));
             forced.push(None);
           }
@@ -758,25 +995,28 @@ pub fn run(cfg: &Cfg) -> Report {
         if bound.iter().any(|b| b.name.to_string() == "zlist" || b.name == local0) {
           continue;
         }
-        let mut first = FeelContext::default();
-        first.set_entry(&Name::from("fld"), Value::Number(FeelNumber::from_i128(1)));
-        let mut second = FeelContext::default();
-        second.set_entry(&Name::from("fld"), Value::Number(FeelNumber::from_i128(2)));
-        second.set_entry(&local0, Value::Number(FeelNumber::from_i128(3)));
-        let value = Value::List(dmntk_feel::values::Values::new(vec![Value::Context(first), Value::Context(second)]));
+        let value = zlist_value(&local0);
         // in the expected text the name stays (a literal list would hide its keys from the lexer); the expected
         // text is evaluated in a scope that binds `zlist` to the same list with the key renamed to `v0`
         bound.push(Bound { parts: vec!["zlist".into()], name: Name::from("zlist"), value, literal: "zlist".into(), exotic: false });
         scope = scope_of(&bound);
         keys = sorted_keys(&scope);
       }
+      // The tree is a function of (scope, text): the same text is parsed on this thread (i) first in a scope that
+      // binds nothing, (ii) then in its own scope, (iii) then in a scope that binds the words of its names of
+      // several parts but not those names; (ii) and (iii) are each judged by the specification for THAT scope.
+      rep.hit(&format!("sequence:(i) scope that binds nothing: parse {}", parse_status(&Scope::default(), &text)));
       // a fresh scope per evaluation: a failed parse leaves its pushed contexts in the scope
       let impl_value = eval_text(&scope_of(&bound), &text);
+      let parts = if tn_only && multi { parts_case(&text, &n_parts) } else { None };
+      rep.hit(if parts.is_some() { "sequence:(iii) scope of the words: explored" } else { "sequence:(iii) scope of the words: not applicable" });
+      let wrapper = rng.below(wrappers.len() as u64) as usize;
       rep.hit(&format!("position:{}", family));
       let imp = impl_tokens(&scope, &text, (false, false, false, false), 400);
       tok_cases.push(TokCase { input: text.clone(), keys: keys.clone(), flags: (false, false, false, false), imp, nontrivial: multi || competing, family: "expression" });
       let exotic_case = chosen.iter().any(|b| b.exotic);
-      eval_cases.push(EvalCase { text, all_bound: bound.clone(), occurrences, locals, forced, family, impl_value, nontrivial: multi || competing, exotic: exotic_case });
+      let local0 = locals[0].clone();
+      eval_cases.push(EvalCase { text, all_bound: bound.clone(), occurrences, locals, forced, family, impl_value, nontrivial: multi || competing, exotic: exotic_case, parts, wrapper, local0 });
     }
 
     // (3) a random fragment over the lexer's alphabet, random flags
@@ -899,8 +1139,9 @@ pub fn run(cfg: &Cfg) -> Report {
   }
   let answers = model.ask_batch(&reqs);
   let mut ai = 0;
-  let empty = Scope::default();
-  for c in &eval_cases {
+  // (index of the case, its value) of every case that was judged and found right
+  let mut judged: Vec<(usize, String)> = vec![];
+  for (ci, c) in eval_cases.iter().enumerate() {
     rep.case(&format!("evaluate|{:?}|{}", c.all_bound.iter().map(|b| b.name.to_string()).collect::<Vec<String>>(), c.text), c.nontrivial);
     let chars: Vec<char> = c.text.chars().collect();
     let mut expected_text = String::new();
@@ -980,18 +1221,24 @@ pub fn run(cfg: &Cfg) -> Report {
       }
     } else if c.family == "function-named-args" {
       // known outright: the list of the second and the first parameter's arguments
-      let _ = eval_text(&empty, &expected_text);
+      let _ = eval_text(&Scope::default(), &expected_text);
       "[2, 1]".to_string()
     } else {
-      eval_text(&empty, &expected_text)
+      eval_text(&Scope::default(), &expected_text)
     };
     rep.hit("evaluate:checked");
     if expected == "null" || expected.starts_with("parse-error") {
       rep.hit("evaluate:expected-null-or-error");
     }
+    let bound_text = format!("{:?}", c.all_bound.iter().map(|b| (b.name.to_string(), b.literal.clone())).collect::<Vec<_>>());
+    let plain = plain_of(&c.all_bound, &c.local0);
     if expected != c.impl_value {
       let involves_exotic = c.exotic || c.all_bound.iter().any(|b| b.exotic && resolved.contains(&b.name.to_string()));
-      let sig = if involves_exotic {
+      // the same (scope, text) on a thread that has parsed nothing: when that is right, the answer depended on history
+      let fresh = fresh_thread_eval(&plain, &c.text);
+      let sig = if fresh == expected {
+        "the value of a text depends on the scopes the same text was parsed in before on the thread (own scope after a scope that binds nothing)".to_string()
+      } else if involves_exotic {
         "bound name does not evaluate to its bound value (scope with a name with adjacent or trailing additional symbols)".to_string()
       } else {
         format!("bound name does not evaluate to its bound value: position {}", c.family)
@@ -1000,14 +1247,225 @@ pub fn run(cfg: &Cfg) -> Report {
         Kind::ImplVsSpec,
         "evaluate",
         &sig,
-        &format!("bound={:?} expression={:?}", c.all_bound.iter().map(|b| (b.name.to_string(), b.literal.clone())).collect::<Vec<_>>(), c.text),
+        &format!("bound={} expression={:?} (parsed before on the same thread in a scope that binds nothing)", bound_text, c.text),
         &c.impl_value,
-        &format!("{} (value of {:?}; occurrences resolve to {:?})", expected, expected_text, resolved),
+        &format!("{} (value of {:?}; occurrences resolve to {:?}; on a fresh thread: {})", expected, expected_text, resolved, fresh),
       );
+    } else {
+      judged.push((ci, expected.clone()));
+    }
+
+    // -------- (iii) the same text where only the words are bound
+    if let Some(pc) = &c.parts {
+      let names3: Vec<String> = pc.words.iter().map(|(w, _)| w.clone()).collect();
+      let reqs: Vec<String> = pc.word_starts.iter().map(|(off, _)| resolve_request(&names3, &chars[*off..].iter().collect::<String>())).collect();
+      let answers3 = model.ask_batch(&reqs);
+      let spec_agrees = pc.word_starts.iter().zip(answers3.iter()).all(|((_, w), a)| spec_some(a) == Some((w.clone(), w.chars().count())));
+      rep.case(&format!("evaluate-words|{:?}|{}", pc.words, c.text), true);
+      if !spec_agrees {
+        rep.hit("evaluate-words:not-judged(specification resolves a word differently)");
+      } else {
+        let expected3 = eval_text(&Scope::default(), &pc.expected_text);
+        rep.hit("evaluate-words:checked");
+        let agree = if expected3.starts_with("parse-error") {
+          rep.hit("evaluate-words:expected-parse-error");
+          pc.impl_value.starts_with("parse-error")
+        } else {
+          expected3 == pc.impl_value
+        };
+        if !agree {
+          let plain3: Vec<Plain> = pc.words.iter().map(|(w, v)| (vec![w.clone()], v.to_string(), vec![])).collect();
+          let fresh = fresh_thread_eval(&plain3, &c.text);
+          let fresh_agrees = if expected3.starts_with("parse-error") { fresh.starts_with("parse-error") } else { fresh == expected3 };
+          let sig = if fresh_agrees {
+            "the value of a text depends on the scopes the same text was parsed in before on the thread (scope of the words after the scope of the names)".to_string()
+          } else {
+            format!("words bound one by one do not evaluate to their own values: position {}", c.family)
+          };
+          rep.disagree(
+            Kind::ImplVsSpec,
+            "evaluate-words",
+            &sig,
+            &format!("bound={:?} expression={:?} (parsed before on the same thread with bound={})", pc.words, c.text, bound_text),
+            &pc.impl_value,
+            &format!("{} (value of {:?}; on a fresh thread: {})", expected3, pc.expected_text, fresh),
+          );
+        }
+      }
+    }
+
+    // -------- the same expression before / inside / after a construct that brackets a parsing context
+    if !(expected.starts_with("parse-error") || expected.starts_with("evaluate-error") || expected.starts_with("panic")) && expected == c.impl_value {
+      let mut wi = c.wrapper;
+      if matches!(wrappers[wi].expect, Expect::Eq(_)) && !writable(&expected) {
+        wi = (wi + 7) % wrappers.len();
+        while matches!(wrappers[wi].expect, Expect::Eq(_)) {
+          wi = (wi + 1) % wrappers.len();
+        }
+      }
+      let w = &wrappers[wi];
+      let wrapped = format!("{}{}{}", w.prefix.replace("{}", &expected), c.text, w.suffix.replace("{}", &expected));
+      let want = match w.expect {
+        Expect::Same => expected.clone(),
+        Expect::Fmt(f) => f.replace("{}", &expected),
+        Expect::Eq(v) => v.to_string(),
+      };
+      let got = eval_text(&scope_of_plain(&plain), &wrapped);
+      rep.case(&format!("evaluate-bracketed|{}|{}", bound_text, wrapped), c.nontrivial);
+      rep.hit(&format!("bracket:{}", w.name));
+      if got != want {
+        rep.disagree(
+          Kind::ImplVsSpec,
+          "evaluate-bracketed",
+          &format!("bound name does not evaluate to its bound value when the expression stands {}", w.name),
+          &format!("bound={} expression={:?}", bound_text, wrapped),
+          &got,
+          &format!("{} (the value of {:?} alone is {})", want, c.text, expected),
+        );
+      }
     }
     if rep.samples.len() < 12 {
       rep.sample(json!({"family": "evaluate", "bound": c.all_bound.iter().map(|b| (b.name.to_string(), b.literal.clone())).collect::<Vec<_>>(),
         "expression": c.text, "implementation": c.impl_value, "specification": expected, "substituted": expected_text}));
+    }
+  }
+
+  // ---------------------------------------------------------------- built-in names: impl ⊨ spec
+  // A bound name resolves to its bound value also when the name is the name of a built-in function: the bound value
+  // has priority wherever the name stands (callee of a positional or a named invocation, operand). The names come
+  // from the table regenerated from feel/src/bif.rs (`Bif::from_str`); the expectations are known outright
+  // (the bound function is `function (p, q) 1000 + p * 10 + q`, the bound number is 7).
+  let bif_names: Vec<String> = Sexp::parse(&model.ask("(c10 bifnames)"))
+    .and_then(|x| x.as_list().map(|l| l.iter().filter_map(cps_to_string).collect()))
+    .unwrap_or_default();
+  if bif_names.len() < 20 {
+    rep.disagree(Kind::ImplVsModel, "bif-named", "the table of built-in function names is unreadable", "(c10 bifnames)", &format!("{:?}", bif_names), "the names Bif::from_str accepts");
+  }
+  const FUN: &str = "function (p, q) 1000 + p * 10 + q";
+  let fun_literal = format!("({})", FUN);
+  let rounds = if thorough { 12 } else { 2 };
+  for round in 0..rounds {
+    for nm in &bif_names {
+      let parts: Vec<String> = nm.split(' ').map(|w| w.to_string()).collect();
+      // `not` is a keyword of FEEL (outside the property's quantifier: names whose words are keywords)
+      if nm == "not" {
+        rep.hit("bif-named:skipped(keyword not)");
+        continue;
+      }
+      // other bound names next to it: numbers, used as arguments
+      let others = gen_bound(&mut rng, false);
+      let others: Vec<Bound> = others.into_iter().filter(|b| matches!(b.value, Value::Number(_)) && !bif_names.contains(&b.name.to_string()) && !b.parts.iter().any(|p| parts.contains(p))).take(if round == 0 { 0 } else { 3 }).collect();
+      let (x, y) = if others.len() >= 2 { (others[0].clone(), others[1].clone()) } else { (lit_bound(2), lit_bound(5)) };
+      let (xv, yv): (i128, i128) = (x.literal.parse().unwrap_or(0), y.literal.parse().unwrap_or(0));
+      let call = 1000 + xv * 10 + yv;
+      let mut r = |rng: &mut Rng, b: &Bound| if b.parts.is_empty() { b.literal.clone() } else { render(rng, &b.parts) };
+      let f = if round == 0 { nm.clone() } else { render(&mut rng, &parts) };
+      let (xs, ys) = (r(&mut rng, &x), r(&mut rng, &y));
+      // (what is bound to the name, expression, expected value)
+      let mut cases: Vec<(&str, String, String, &str)> = vec![
+        ("function", format!("{}({}, {})", f, xs, ys), call.to_string(), "positional invocation"),
+        ("function", format!("{} ({},{})", f, xs, ys), call.to_string(), "positional invocation"),
+        ("function", format!("{}({}, {}) + {}(1, 1)", f, xs, ys, f), (call + 1011).to_string(), "positional invocation"),
+        ("function", format!("[{}({}, {}), {}]", f, ys, xs, xs), format!("[{}, {}]", 1000 + yv * 10 + xv, xv), "positional invocation"),
+        ("function", format!("{}(p: {}, q: {})", f, xs, ys), call.to_string(), "named invocation"),
+        ("function", format!("{}(q: {}, p: {})", f, ys, xs), call.to_string(), "named invocation"),
+        ("function", format!("for w9 in [1, 2] return {}(w9, {})", f, ys), format!("[{}, {}]", 1010 + yv, 1020 + yv), "positional invocation"),
+        ("function", format!("(function () {}({}, {}))()", f, xs, ys), call.to_string(), "positional invocation"),
+        ("function", format!("{}({}({}, {}), 1)", f, f, xs, ys), (1000 + call * 10 + 1).to_string(), "positional invocation"),
+        ("function", format!("[{}][1](1, 1)", f), "1011".to_string(), "operand"),
+        ("number", format!("{} + 1", f), "8".to_string(), "operand"),
+        ("number", format!("[{}, {} * 2]", f, f), "[7, 14]".to_string(), "operand"),
+        ("number", format!("if {} > 1 then {} else 0", f, f), "7".to_string(), "operand"),
+        ("number", format!("{}-{}", f, f), "0".to_string(), "operand"),
+        ("number", format!("-{}", f), "-7".to_string(), "operand"),
+        ("number", format!("{}({}, {})", f, xs, ys), "null".to_string(), "positional invocation of a number"),
+        // the name is introduced by the text itself
+        ("nothing", format!("{{{}: {}, r: {}({}, {})}}.r", nm, FUN, f, xs, ys), call.to_string(), "positional invocation, context entry"),
+        ("nothing", format!("{{{}: {}, r: {}(q: {}, p: {})}}.r", nm, FUN, f, ys, xs), call.to_string(), "named invocation, context entry"),
+        ("nothing", format!("{{{}: 7, r: {} + 1}}.r", nm, f), "8".to_string(), "operand, context entry"),
+      ];
+      if parts.len() == 1 {
+        cases.push(("nothing", format!("(function ({}) {}(2, 5))({})", nm, f, FUN), "1025".to_string(), "positional invocation, formal parameter"));
+        cases.push(("nothing", format!("for {} in [7] return {} + 1", nm, f), "[8]".to_string(), "operand, iteration variable"));
+      }
+      // observed on the unchanged tree (reported, not judged here): some of the names the lexer hands out as date/time
+      // literal names cannot be introduced by the text itself: `duration` and `date and time` as a context key, `date`,
+      // `time` and `duration` as a formal parameter (syntax error)
+      for (what, text, want, form) in cases {
+        let unwritable = (form.ends_with("context entry") && ["duration", "date and time"].contains(&nm.as_str())) || (form.ends_with("formal parameter") && ["date", "time", "duration"].contains(&nm.as_str()));
+        if what == "nothing" && unwritable {
+          rep.hit("bif-named:not-judged(date/time literal name introduced by the text)");
+          continue;
+        }
+        let mut bound: Vec<Bound> = others.clone();
+        match what {
+          "function" => bound.push(Bound { parts: parts.clone(), name: name_of(&parts), value: value_of_literal(&fun_literal, &[]), literal: fun_literal.clone(), exotic: false }),
+          "number" => bound.push(Bound { parts: parts.clone(), name: name_of(&parts), value: Value::Number(FeelNumber::from_i128(7)), literal: "7".into(), exotic: false }),
+          _ => {}
+        }
+        let got = eval_text(&scope_of(&bound), &text);
+        rep.case(&format!("bif-named|{}|{}", what, text), true);
+        rep.hit(&format!("bif-named:{} bound, {}", what, form));
+        if got != want {
+          rep.disagree(
+            Kind::ImplVsSpec,
+            "bif-named",
+            &format!("a bound name that is also the name of a built-in function does not resolve to its bound value: {}", form),
+            &format!("bound={:?} expression={:?}", bound.iter().map(|b| (b.name.to_string(), b.literal.clone())).collect::<Vec<_>>(), text),
+            &got,
+            &want,
+          );
+        }
+      }
+    }
+  }
+
+  // ---------------------------------------------------------------- history: impl ⊨ spec
+  // At the end of the run every text has been parsed under several scopes on this thread. (a) Texts are evaluated
+  // once more in their own scope: the value the specification gave must come out again. (b) Pairs of earlier cases:
+  // the text of one in the scope of the other, on this thread and on a thread that has parsed nothing; a tree (hence
+  // a value) is a function of (scope, text), so the two must agree.
+  if !judged.is_empty() {
+    let n_again = if thorough { 6000 } else { 500 };
+    for _ in 0..n_again {
+      let (ci, expected) = rng.pick(&judged).clone();
+      let c = &eval_cases[ci];
+      let plain = plain_of(&c.all_bound, &c.local0);
+      let got = eval_text(&scope_of_plain(&plain), &c.text);
+      rep.case(&format!("history-again|{}|{}", ci, c.text), c.nontrivial);
+      rep.hit("history:own scope again");
+      if got != expected {
+        rep.disagree(
+          Kind::ImplVsSpec,
+          "history",
+          "the value of a text depends on the scopes the same text was parsed in before on the thread (own scope again at the end of the run)",
+          &format!("bound={:?} expression={:?} (parsed before on the same thread in other scopes)", c.all_bound.iter().map(|b| (b.name.to_string(), b.literal.clone())).collect::<Vec<_>>(), c.text),
+          &got,
+          &format!("{} (the specification's value, which the first evaluation in this scope gave)", expected),
+        );
+      }
+    }
+    let n_pairs = if thorough { 4000 } else { 400 };
+    for k in 0..n_pairs {
+      let (ai, _) = rng.pick(&judged).clone();
+      // every other pair: a case from the neighbourhood (same or next generated scope: the names overlap)
+      let bi = if k % 2 == 0 { rng.pick(&judged).0 } else { judged[(judged.iter().position(|j| j.0 == ai).unwrap_or(0) + 1 + rng.below(6) as usize) % judged.len()].0 };
+      let (a, b) = (&eval_cases[ai], &eval_cases[bi]);
+      let plain = plain_of(&b.all_bound, &b.local0);
+      let here = eval_text(&scope_of_plain(&plain), &a.text);
+      let fresh = fresh_thread_eval(&plain, &a.text);
+      rep.case(&format!("history-pair|{}|{}", ai, bi), true);
+      rep.hit("history:text of one case in the scope of another");
+      if here != fresh && !(here.starts_with("parse-error") && fresh.starts_with("parse-error")) {
+        rep.disagree(
+          Kind::ImplVsSpec,
+          "history",
+          "the value of a text depends on the scopes the same text was parsed in before on the thread (text of one case in the scope of another)",
+          &format!("bound={:?} expression={:?} (parsed before on the same thread in other scopes)", b.all_bound.iter().map(|x| (x.name.to_string(), x.literal.clone())).collect::<Vec<_>>(), a.text),
+          &here,
+          &format!("{} (the same scope and text on a thread that has parsed nothing)", fresh),
+        );
+      }
     }
   }
 
